@@ -1,9 +1,9 @@
 package kv
 
 import (
-	"os"
 	"fmt"
 	"go/types"
+	"os"
 	"sort"
 	"strings"
 	"time"
@@ -44,23 +44,24 @@ type Unit struct {
 	heap0    map[string]Term // initial heap constants
 	heapSort map[string]string
 
-	Opaque      map[string]bool // opaque calls made
-	Trusted     map[string]bool // intrinsics / trusted contracts used
-	Inlined     map[string]bool
-	ByContract  map[string]bool
-	Warnings    []string
-	specFnsUsed map[string]bool
-	LoopsNoDecr []string
-	Errors      []string
-	alloc0      Term
-	pureDefined map[string]bool
-	smokeOn     bool
-	axioms      []Term
-	factTags    map[int]string
-	wfSeen      map[Term]bool
-	storeDef    map[Term][3]Term // heap constant -> (base, index, value) when defined by a store
-	entryEnv    func() *Env
-	gens        int
+	Opaque       map[string]bool // opaque calls made
+	Trusted      map[string]bool // intrinsics / trusted contracts used
+	Inlined      map[string]bool
+	ByContract   map[string]bool
+	Warnings     []string
+	specFnsUsed  map[string]bool
+	LoopsNoDecr  []string
+	Errors       []string
+	alloc0       Term
+	pureDefined  map[string]bool
+	smokeOn      bool
+	axioms       []Term
+	factTags     map[int]string
+	wfSeen       map[Term]bool
+	traceArgType map[string]types.Type // "<callback>_<argindex>" -> Go type
+	storeDef     map[Term][3]Term      // heap constant -> (base, index, value) when defined by a store
+	entryEnv     func() *Env
+	gens         int
 }
 
 func NewUnit(e *Engine, name string) *Unit {
